@@ -689,6 +689,13 @@ pub async fn run_op2(ctx: &Ctx, op: AOp, info: &Rc<TaskInfo>, handle: Handle) {
                 ctx.probe("event-round-inconclusive");
                 return;
             }
+            // The service must have lived through the burst (its object may have been destroyed by
+            // another task; the server task of a dead service still "emits", into the void). Services
+            // do not come back under the same cookie, so being alive now is enough.
+            if blocked(info, "Handle::create_proxy", true, handle.create_proxy(sid)).await.is_err() {
+                ctx.probe("event-round-inconclusive");
+                return;
+            }
             for (pi, p) in proxies.iter_mut().enumerate() {
                 let mut got = Vec::new();
                 let mut ended = false;
